@@ -31,7 +31,7 @@ EXPECT_REACH = ['parse.full.nokeys', 'parse.full.keys', 'parse.header_only', 'ou
 LINE_BASE, LINE_PER_OCTET = 6000, 300
 ALLOWED = ('InvalidSyntax', 'UnsupportedCriticalPayload')
 GEN = ('random', 'trunc', 'flip', 'extend', 'struct', 'nested', 'zero_len_payload', 'delete_many', 'lenfield', 'byz', 'byz',
-       'byz', 'byz_geom', 'multi_flip', 'empty', 'short')
+       'byz', 'byz_geom', 'multi_flip', 'empty', 'short', 'scale')
 
 
 class ParseProbe:
@@ -44,6 +44,7 @@ class ParseProbe:
         self.reach = {}
         self.calls = 0
         self.current_gen = None
+        self.last_used = None
         self.outcomes = {}
         probe = self
         orig_func = self.orig.__func__
@@ -77,6 +78,8 @@ class ParseProbe:
                     probe.reach['outcome.' + out] = probe.reach.get('outcome.' + out, 0) + 1
                     key = (probe.current_gen, out)
                     probe.outcomes[key] = probe.outcomes.get(key, 0) + 1
+                    if not header_only:
+                        probe.last_used = used
                     if used > LINE_BASE + LINE_PER_OCTET * len(data) and not probe.w.poisoned:
                         probe.w.violation(PROP, 'parse_superlinear', {'gen': probe.current_gen},
                                           f'Message.parse of {len(data)} octets executed {used} lines '
@@ -149,6 +152,9 @@ class Injector:
             if w.poisoned or node.state != 'running' or node.exited:
                 return
             gen = r.choice(GEN)
+            if gen == 'scale':
+                self.scale(w, r, node, dst, peer)
+                continue
             data = self.make(gen, r, node, dst, peer, meta)
             if data is None:
                 continue
@@ -169,6 +175,56 @@ class Injector:
                 w.violation(PROP, 'parse_did_not_terminate' if kind == 'hang' else 'daemon_died',
                             {'gen': gen, 'kind': kind}, f'{node.name} {node.death[:2]} on a {gen} datagram of {len(data)} octets: {data.hex()[:300]}')
                 w.poisoned = True
+
+    def scale(self, w, r, node, dst, peer):
+        """Time linear in the input length: the same well-formed structure with n and with 4 n pairwise DISTINCT elements (repeating one
+        element would let an early duplicate test hide a quadratic scan); the parse of the larger one may cost about 4 times the lines."""
+        kind = r.choice(['transforms', 'transforms', 'proposals', 'selectors', 'delete_spis', 'notifies'])
+        n1 = r.choice([25, 40, 60])
+        used = []
+        for n in (n1, 4 * n1):
+            if kind == 'transforms':
+                trs = [{'type': r.choice([1, 2, 3, 4]), 'id': 1000 + i, 'keylen': None, 'attrs': []} for i in range(n)]
+                pls = [{'type': R.P_SA, 'proposals': [{'num': 1, 'proto': 1, 'spi': b'', 'transforms': trs}]}]
+            elif kind == 'proposals':
+                pls = [{'type': R.P_SA, 'proposals': [{'num': (i % 250) + 1, 'proto': 3, 'spi': (70000 + i).to_bytes(4, 'big'),
+                                                       'transforms': [{'type': 3, 'id': 12, 'keylen': None, 'attrs': []}]} for i in range(n)]}]
+            elif kind == 'selectors':
+                sel = lambda i: {'ts_type': 7, 'proto': 6, 'sport': i, 'eport': i, 'saddr': (0x0A000000 + i).to_bytes(4, 'big'),
+                                 'eaddr': (0x0A000000 + i).to_bytes(4, 'big')}
+                pls = [{'type': R.P_TSi, 'selectors': [sel(i) for i in range(min(n, 255))]}, {'type': R.P_TSr, 'selectors': [sel(i + 300) for i in range(min(n, 255))]}]
+            elif kind == 'delete_spis':
+                pls = [{'type': R.P_DELETE, 'proto': 3, 'spis': [(90000 + i).to_bytes(4, 'big') for i in range(n)]}]
+            else:
+                pls = [{'type': R.P_NOTIFY, 'proto': 0, 'ntype': 16400 + i, 'spi': b'', 'data': bytes([i % 256])} for i in range(n)]
+            pls += [{'type': R.P_NONCE, 'data': bytes(r.getrandbits(8) for _ in range(16))}]
+            data = R.encode({'spi_i': bytes(r.getrandbits(8) for _ in range(8)), 'spi_r': b'\0' * 8, 'exch': 34, 'I': True, 'R': False, 'id': 0}, pls)
+            if len(data) > 4000:
+                return
+            if w.poisoned or node.state != 'running' or node.exited:
+                return
+            gen = 'scale.' + kind
+            self.probe.current_gen = gen
+            self.probe.last_used = None
+            sock = node.udp.get(dst)
+            if sock is None:
+                return
+            sock.queue.append((data, (peer, 500)))
+            w.net._count('adv.c06.scale')
+            w.record(('c06', gen, len(data)))
+            w.release(node, ('hostile', gen))
+            self.probe.current_gen = None
+            self.n += 1
+            if node.death or self.probe.last_used is None:
+                return
+            used.append((len(data), self.probe.last_used))
+        self.probe.reach['gen.scale'] = self.probe.reach.get('gen.scale', 0) + 1
+        (l1, u1), (l2, u2) = used
+        if u2 > 7 * u1 + 3000 and not w.poisoned:
+            w.violation(PROP, 'parse_superlinear', {'gen': 'scale.' + kind},
+                        f'Message.parse: {l1} octets ({n1} distinct {kind}) took {u1} lines, {l2} octets ({4 * n1} distinct {kind}) took {u2} lines: '
+                        f'{u2 / max(u1, 1):.1f} times the work for {l2 / l1:.1f} times the input')
+            w.poisoned = True
 
     def make(self, gen, r, node, dst, peer, meta):
         if gen in ('byz', 'byz_geom'):
